@@ -30,6 +30,8 @@ def run(ctx):
     spec = SP.load_spec()
     for fn in ('asefile::parse::read_aseprite', 'asefile::parse::parse_frame', 'asefile::parse::Chunk::read'):
         layout.check_layout(ctx, spec, fn, spec['decoders'][fn], rule='X3')
+    import C07
+    C07.chunk_count_selection(ctx, 'X3')
     ns = common.error_discipline(ctx, load, 'X4')
     ctx.floor('fallible call sites in the loader cone', ns, 150)
     ctx.extra['load_cone_size'] = len(load)
